@@ -133,7 +133,24 @@ ShortRunFamilies == {
   Family("lookbehind-scan", "(?<=b)c", "a", ""), Family("neg-lookbehind-scan", "(?<!b)c", "a", ""),
   Family("many-attempts", "a{20}b", "aaaaaaaaaaaaaaaaaaaac", ""), Family("lookbehind-in-loop", "(?:(?<=a)b|a)+c", "ab", ""),
   Family("lookahead-scan", "(?=a)b", "a", "")}
-Families == LongRunFamilies \cup ShortRunFamilies
+\* "lookaround inside loops" (the property's quantifier): a catastrophic loop (a|a)*b whose body contains a lookaround - before or
+\* after the atom - or which reaches one after every way of leaving the loop; the four lookaround kinds (each chosen so that it
+\* succeeds on a^n: the loop stays exponential); the loop itself in the main run, or inside a lookahead / lookbehind run (a sub-matcher
+\* that starts sub-matchers).  What bounds such a run is the step budget of the run that contains the loop, and that run is
+\* interrupted by another run of the same matcher every few steps: a budget has to survive the runs nested in it.
+LookKinds == {<<"la", "(?=a)">>, <<"nla", "(?!c)">>, <<"lb", "(?<=a)">>, <<"nlb", "(?<!b)">>}
+LookPositions == {<<"pre", "(?:", "a|a)*b">>, <<"post", "(?:a", "|a)*b">>, <<"after", "(?:a|a)*", "b">>}
+LookLevels == {<<"main", "", "">>, <<"in-la", "(?=", ")">>, <<"in-lb", "(?<=", ")c">>}
+LookFamily(k, p, l) == Family("looplook-" \o k[1] \o "-" \o p[1] \o "-" \o l[1], l[2] \o p[2] \o k[2] \o p[3] \o l[3], "a", "")
+\* quick: every kind x every position in the main run; every kind and every position once inside each sub-matcher level
+QuickLook(k, p, l) == l[1] = "main" \/ (k[1] \in {"la", "nlb"} /\ p[1] = "pre") \/ (k[1] = "nla" /\ p[1] = "post") \/ (k[1] = "lb" /\ p[1] = "after")
+LookGrid == {<<k, p, l>> \in LookKinds \X LookPositions \X LookLevels : ~Quick \/ QuickLook(k, p, l)}
+LoopLookFamilies == {LookFamily(g[1], g[2], g[3]) : g \in LookGrid}
+\* the sub-grid of the quick tier still has every kind and every position at every level
+ASSUME LookGridLaw == \A l \in LookLevels : (\A k \in LookKinds : \E g1 \in LookGrid : g1[1] = k /\ g1[3] = l)
+                                             /\ (\A q \in LookPositions : \E g2 \in LookGrid : g2[2] = q /\ g2[3] = l)
+LoopLookNames == {f.fam : f \in LoopLookFamilies}
+Families == LongRunFamilies \cup ShortRunFamilies \cup LoopLookFamilies
 Lengths == IF Quick THEN {10, 100, 10000} ELSE {10, 30, 100, 1000, 10000}
 \* the real budgets (regex/vm.py RegexVM defaults)
 StepLimit == 100000
@@ -144,7 +161,7 @@ RealPollInterval == 100
 \* mode "script": var R = new RegExp(P, F); <op> - in a Context; form "try": inside try/catch (does script code receive the error?)
 \* deadline: 0 = none, else a number of hooked steps.  api: the poll callback says stop once that many steps have been counted;
 \*   script: Context(time_limit = deadline) on a virtual clock that advances one second per hooked step (VM or regex)
-\* cap: which counting cap bounds the run ("main": 1.5 / 8 million steps, "aux": 0.4 / 1.5 million; quick / thorough);
+\* cap: which counting cap bounds the run ("main": 1.5 / 8 million steps, "aux": 0.4 / 1.5 million, "look": 0.2 / 2 million; quick / thorough);
 \* lens: the subject lengths the configuration is run with
 Deadlines == {60, 20000}                                    \* shorter than one real poll interval; many poll intervals
 PollIntervals == IF Quick THEN {1, RealPollInterval} ELSE {1, 7, RealPollInterval, 1000}
@@ -167,7 +184,11 @@ OpFamilyNames == IF Quick THEN {"nested-plus", "star-star", "alt-star", "lookahe
 OpLengths == IF Quick THEN {10, 10000} ELSE Lengths
 OpCfgs == {ScriptCfg(o[1], o[2], form, d, "aux", OpLengths) : o \in OpFlags, form \in Forms, d \in {0} \cup Deadlines}
           \ {ScriptCfg("test", "", "bare", d, "aux", OpLengths) : d \in {0} \cup Deadlines}
-RunConfigs(f) == BaseCfgs \cup (IF f.fam \in OpFamilyNames THEN OpCfgs ELSE {})
+\* the loop-lookaround families, quick: package API with the real poll interval and R.test(S), without and with a deadline, every
+\* length (thorough: every configuration, like every other family)
+\* cap "look": 200 000 steps (thorough 2 000 000) - twice the step budget is enough to see one run exceed it
+LookCfgs == {ApiCfg(RealPollInterval, d, "look", Lengths) : d \in {0} \cup Deadlines} \cup {ScriptCfg("test", "", "bare", d, "look", Lengths) : d \in {0} \cup Deadlines}
+RunConfigs(f) == IF Quick /\ f.fam \in LoopLookNames THEN LookCfgs ELSE BaseCfgs \cup (IF f.fam \in OpFamilyNames THEN OpCfgs ELSE {})
 
 \* ---------------- case-folding grid (matching under the i flag) -----------------------------------
 \* subject characters whose upper / lower case mapping is several characters or leaves (enters) ASCII:
@@ -187,6 +208,48 @@ FoldSubjects(c) == {c, U("x") \o c, c \o U("A"), c \o c, U("xX") \o c, c \o U("a
 \* package API exec; script level: exec, test, String.prototype.match / search / replace / split with the regex
 FoldOps == <<"api", "exec", "test", "match", "search", "replace", "split">>
 
+\* ---------------- start-position grid (the state a RegExp object carries into a match) -------------------------
+\* "Matching any accepted pattern against any string" starts from the state of the RegExp object: lastIndex, read by every
+\* entry point under the g and y flags, is any value a script can store or an earlier match on another subject left behind -
+\* inside the subject, at its end, past its end, far past it, negative, not an integer, not a number.  Patterns: one per
+\* kind of first instruction (an assertion that looks at the neighbouring characters, a consuming atom, something that
+\* matches the empty string, a lookaround, a backreference).  Judged: outcome typing only (PosVerdict).
+PosPat(name, src) == [name |-> name, src |-> U(src)]
+PosLeadPatterns == {PosPat("wb", "\\b"), PosPat("bol", "^"), PosPat("letter", "a")}
+PosPatterns == PosLeadPatterns \cup {
+  PosPat("nwb", "\\B"), PosPat("eol", "$"), PosPat("wb-word", "\\b\\w+"), PosPat("bol-word", "^\\w+"), PosPat("nwb-x", "\\Bx"), PosPat("bol-eol", "^$"),
+  PosPat("wb-eol", "\\b$"), PosPat("alt-assert", "(?:^|\\b)a"), PosPat("word", "\\w+"), PosPat("dot", "."), PosPat("neg-class", "[^x]"),
+  PosPat("word-star", "\\w*"), PosPat("empty", "(?:)"), PosPat("lazy-star", "a*?"), PosPat("alt-empty", "a|"),
+  PosPat("la", "(?=a)"), PosPat("nla", "(?!a)"), PosPat("lb", "(?<=a)"), PosPat("nlb", "(?<!a)"), PosPat("lb-wb", "(?<=\\b)"), PosPat("lb-bol", "(?<=^)b"),
+  PosPat("bref", "(a)\\1"), PosPat("bref-fwd", "\\1(a)"), PosPat("bref-empty", "()\\1\\b")}
+PosCoreFlags == {U(""), U("y"), U("gy"), U("my")}
+PosFlags == PosCoreFlags \cup {U("g"), U("m"), U("gm"), U("gmy"), U("u"), U("gu"), U("uy"), U("guy"), U("mu"), U("muy"), U("gmu"), U("gmuy"), U("iy"), U("sy")}
+PosCoreSubjects == {U("ab")}
+PosSubjects == PosCoreSubjects \cup {<<>>, U("a"), <<97, 10, 98>>, <<97, 98, 10>>, <<10>>, U("hi there"), <<55357, 56832, 97>>}
+\* how lastIndex gets its value: pre = statements run first (R, S: the regex and the subject), js = the expression assigned ("" = none)
+PosLI(name, pre, js) == [name |-> name, pre |-> pre, js |-> js]
+PosLastIndexes == {
+  PosLI("fresh", "", ""), PosLI("0", "", "0"), PosLI("1", "", "1"), PosLI("len-1", "", "S.length - 1"), PosLI("len", "", "S.length"),
+  PosLI("len+1", "", "S.length + 1"), PosLI("len+2", "", "S.length + 2"), PosLI("len+1000", "", "S.length + 1000"),
+  PosLI("2^31-1", "", "2147483647"), PosLI("2^31", "", "2147483648"), PosLI("2^32", "", "4294967296"), PosLI("2^53+1", "", "9007199254740993"),
+  PosLI("1e21", "", "1e21"), PosLI("-1", "", "-1"), PosLI("-0", "", "-0"), PosLI("nan", "", "NaN"), PosLI("inf", "", "Infinity"), PosLI("-inf", "", "-Infinity"),
+  PosLI("fraction", "", "1.5"), PosLI("fraction-past", "", "S.length + 0.5"), PosLI("numeric-string", "", "'3'"), PosLI("string", "", "'x'"),
+  PosLI("undefined", "", "undefined"), PosLI("null", "", "null"), PosLI("true", "", "true"), PosLI("object", "", "{}"),
+  PosLI("valueOf-past", "", "{valueOf: function () { return S.length + 1; }}"),
+  \* left behind by an earlier match on a longer subject (a scanner reused on a new input without resetting lastIndex)
+  PosLI("carried-exec", "R.exec('ab a\\nab ' + S + ' ab a');", ""), PosLI("carried-test", "R.test(S + S + ' a\\nb a');", ""),
+  PosLI("carried-twice", "R.exec('a ab\\na ' + S + ' ab'); R.exec('a ab\\na ' + S + ' ab');", "")}
+\* every entry point that runs the matcher on a RegExp object
+PosOps == <<"exec", "test", "match", "search", "replace", "replaceAll", "split">>
+\* cells [pats, flags, subjects], each run with every lastIndex and every op.  thorough: the full product.  quick: every pattern
+\* x the core flags x the core subject, and every other flag string / subject next to the lead patterns (PosGridLaw)
+PosCell(pats, flags, subjects) == [pats |-> pats, flags |-> flags, subjects |-> subjects]
+PosCells == IF Quick THEN {PosCell(PosPatterns, PosCoreFlags, PosCoreSubjects), PosCell(PosLeadPatterns, PosFlags, PosCoreSubjects),
+                           PosCell(PosLeadPatterns, {U("y"), U("my")}, PosSubjects)}
+            ELSE {PosCell(PosPatterns, PosFlags, PosSubjects)}
+ASSUME PosGridLaw == (UNION {c.pats : c \in PosCells} = PosPatterns) /\ (UNION {c.flags : c \in PosCells} = PosFlags)
+                     /\ (UNION {c.subjects : c \in PosCells} = PosSubjects)
+
 \* ---------------- Enum ----------------------------------------------------------------------------
 VARIABLES ph, cur, rec_i
 vars == <<ph, cur, rec_i>>
@@ -200,6 +263,8 @@ EnumNext == /\ ph = "start" /\ UNCHANGED rec_i
                \* one record per character: the driver runs patterns x flags x subjects x ops (the cross product stated here)
                \/ \E c \in FoldChars : ph' = "out" /\ cur' = [kind |-> "fold", c |-> c, pats |-> FoldPatterns(c), flags |-> FoldFlags,
                                                                  subjects |-> FoldSubjects(c), ops |-> FoldOps]
+               \* one record: the driver runs every cell's product x lastIndexes x ops (stated here)
+               \/ ph' = "out" /\ cur' = [kind |-> "pos", cells |-> PosCells, lis |-> PosLastIndexes, ops |-> PosOps]
 EnumEmit == ph = "start" \/ PrintT(ToJson(cur))
 \* laws of the acceptor, checked over every string up to length 3 of the vocabulary (INVARIANT of a separate small run)
 RECURSIVE WordsUpTo(_, _)
@@ -340,6 +405,11 @@ RunVerdict(r) ==
           \* RegexVM.PollBound: never `interval` steps without a callback, counted over all attempts and sub-matcher runs of the search
           IF ~api \/ r.polls >= total \div c.interval THEN "" ELSE "!poll-bound",
           IF r.maxstep.la <= StepLimit + 1 /\ r.maxstep.lb <= StepLimit + 1 THEN "" ELSE "Dev_SubNoStepLimit",   \* RegexVM.SubStepBound
+          \* the same two bounds on what the OBSERVER counted per activation of the matcher loop (own[kind] = most hook calls between the
+          \* start and the end of one run, runs nested in it not counted; -1: activations could not be told apart, not judged): the
+          \* matcher's own counter, which the clauses above read, is the thing under test
+          IF r.own.re <= StepLimit + 1 THEN "" ELSE "!step-bound-observed",
+          IF r.own.la <= StepLimit + 1 /\ r.own.lb <= StepLimit + 1 THEN "" ELSE "!sub-step-bound-observed",
           \* outcome: a match, null (also: step budget exhausted), another defined value of the entry point, or an error of the JSError family
           CASE r.out \in {"match", "null"} -> ""
             [] r.out = "value" -> IF ~api /\ c.op \in {"search", "split", "replace", "replaceAll"} THEN "" ELSE "!outcome"
@@ -381,5 +451,13 @@ FoldVerdict(r) ==
                 ELSE ""
   IN [id |-> r.id, exp |-> exp, bad |-> [c \in 1..Len(r.out) |-> Bad(c)]]
 FoldInit == /\ rec_i \in 1..Len(Recs) /\ ph = "fold" /\ cur = <<>> /\ PrintT(ToJson(FoldVerdict(Recs[rec_i])))
+\* ---------------- JudgePos ----------------------------------------------------------------------------
+\* a position record: [id, pat, fl (units), subj (units), li (name), out: one code per op, ty: detail per op (recorded, not judged)]
+\* outcome codes: "null" | "false" | "true" | "v" (another value of the entry point) | "caught" (the script's catch clause received
+\*   an error; ty = its class) | "rejected" (new RegExp(P, F) refused the pattern: not an accepted pattern, nothing to judge)
+\*   | "jserror" | "host" | "hang" | "timelimit" | "noresult"
+PosTyped(o, ty) == o \in {"null", "false", "true", "v", "rejected"} \/ (o = "caught" /\ ty \in ErrorClasses) \/ o = "jserror"
+PosVerdict(r) == [id |-> r.id, bad |-> [c \in 1..Len(r.out) |-> IF PosTyped(r.out[c], r.ty[c]) THEN "" ELSE "!outcome"]]
+PosInit == /\ rec_i \in 1..Len(Recs) /\ ph = "pos" /\ cur = <<>> /\ PrintT(ToJson(PosVerdict(Recs[rec_i])))
 JudgeNext == UNCHANGED vars
 =============================================================================
